@@ -7,6 +7,7 @@ import (
 	"strings"
 	"time"
 
+	"go.flow.arcalot.io/engine/internal/verif/env"
 	"go.flow.arcalot.io/engine/internal/verif/vrt"
 	"go.flow.arcalot.io/engine/workflow"
 	"go.flow.arcalot.io/pluginsdk/schema"
@@ -633,4 +634,125 @@ func errBugKey0(s string) string {
 		s = s[:j]
 	}
 	return strings.TrimSpace(short(s, 70))
+}
+
+// ---------------------------------------------------------------------------------------
+// C06: cancellation stops the run in bounded time and reaches every running plugin
+
+func closureMS(st *Step) int64 {
+	if l, ok := st.ClosureMS.(Lit); ok {
+		if v, ok := l.V.(int64); ok {
+			return v
+		}
+	}
+	return 5000
+}
+
+func allPluginSteps(p *Program, f func(st *Step)) {
+	for i := range p.Steps {
+		st := &p.Steps[i]
+		if st.Kind == "foreach" {
+			allPluginSteps(st.Sub, f)
+		} else {
+			f(st)
+		}
+	}
+}
+
+func oracleC06(s *Scenario, x *vrt.Exec, o *Obs) []vrt.Violation {
+	var out []vrt.Violation
+	oc := x.Outcome()
+	if oc.Panic != nil {
+		return nil
+	}
+	if oc.Deadlock {
+		if o.Cancelled {
+			out = append(out, viol(s, "cancelled-run-never-returns", blockedKey(oc.Blocked), "the run was cancelled but never returns: "+strings.Join(oc.Blocked, "; ")))
+		}
+		return out
+	}
+	if !o.Returned || !o.Cancelled {
+		return nil
+	}
+	// bound: grace period + closure timeouts of all plugin steps + scripted reaction times + detector period
+	bound := int64(5000 + 40)
+	closure := map[string]int64{}
+	allPluginSteps(s.Prog, func(st *Step) {
+		closure[st.ID] = closureMS(st)
+	})
+	// steps executing at the time of the cancel
+	running := map[int]string{} // conn -> step
+	for _, e := range o.W.Ledger {
+		if e.Seq >= o.CancelSeq {
+			break
+		}
+		switch e.Kind {
+		case "exec-start":
+			running[e.Conn] = e.Step
+		case "exec-end":
+			delete(running, e.Conn)
+		}
+	}
+	for _, e := range o.W.Ledger {
+		if e.Kind == "exec-start" {
+			bound += closure[e.Step] + s.Script.For(e.Step).CancelMS
+		}
+	}
+	bound += s.maxScriptMS()
+	if d := o.RetT - o.CancelT; d > bound {
+		out = append(out, viol(s, "late-return-after-cancel", "late", fmt.Sprintf("the run returned %dms after the cancellation; the bound from the grace period and closure timeouts is %dms", d, bound)))
+	}
+	for conn, step := range running {
+		signalled, closed, ended := false, false, false
+		for _, e := range o.W.Ledger {
+			if e.Seq >= o.RetSeq || e.Conn != conn {
+				continue // signals and closes that reached the plugin before the cancellation count as well
+			}
+			switch e.Kind {
+			case "signal":
+				if id, _ := e.Data.(string); id == "cancel" {
+					signalled = true
+				}
+			case "conn-close":
+				closed = true
+			case "exec-end":
+				ended = true
+			}
+		}
+		hasHandler := true
+		allPluginSteps(s.Prog, func(st *Step) {
+			if st.ID == step && st.PluginStep == "nosig" {
+				hasHandler = false
+			}
+		})
+		if !ended {
+			out = append(out, viol(s, "plugin-left-running", step, fmt.Sprintf("plugin %s was executing when the run was cancelled and is still executing when Execute returned\n%s", step, o.W.LedgerString())))
+			continue
+		}
+		if hasHandler && !signalled && !closed {
+			// it may have finished by itself right after the cancellation; only a plugin that had to be
+			// stopped must have been reached
+			if k := s.Script.For(step).Run; k == env.RunHangCancel || k == env.RunHangIgnore {
+				out = append(out, viol(s, "cancel-signal-not-sent", step, fmt.Sprintf("plugin %s was executing when the run was cancelled but received neither the cancel signal nor a close\n%s", step, o.W.LedgerString())))
+			}
+		}
+		if !hasHandler && !closed {
+			if k := s.Script.For(step).Run; k == env.RunHangCancel || k == env.RunHangIgnore {
+				out = append(out, viol(s, "plugin-without-handler-not-closed", step, fmt.Sprintf("plugin %s has no cancel handler and was not closed", step)))
+			}
+		}
+	}
+	return out
+}
+
+// oracleC03cancel: after a cancellation the result is an error or an output justified by produced values.
+func oracleC03cancel(s *Scenario, x *vrt.Exec, o *Obs) []vrt.Violation {
+	var out []vrt.Violation
+	for _, v := range oracleC03(s, x, o) {
+		if strings.Contains(v.Key, "/output-without-dependencies/") || strings.Contains(v.Key, "/output-data-differs-from-produced/") ||
+			strings.Contains(v.Key, "/output-not-evaluable/") || (!o.Cancelled) {
+			out = append(out, v)
+		}
+	}
+	return out
 }
